@@ -405,6 +405,7 @@ def entry_code(s):
         lines.append('P.obs(%r, time)' % ('entry:' + s.name))
     if s.bump_entry:
         lines.append('v = v + 1')
+        lines.append('w.append(v)')
     return '\n'.join(lines + _sends_code(s.entry_sends))
 
 
@@ -414,6 +415,7 @@ def exit_code(s):
         lines.append('P.obs(%r, time)' % ('exit:' + s.name))
     if s.bump_exit:
         lines.append('v = v + 2')
+        lines.append('w.append(v)')
     return '\n'.join(lines + _sends_code(s.exit_sends))
 
 
@@ -423,6 +425,7 @@ def action_code(t):
         lines.append('P.obs(%r, time)' % ('act:%d' % t.i))
     if t.bump:
         lines.append('v = v + 3')
+        lines.append('w.append(v)')
     return '\n'.join(lines + _sends_code(t.sends))
 
 
@@ -489,7 +492,7 @@ def _trans_obj(model, t, with_old=True):
     return o
 
 
-PREAMBLE = 'v = 0'
+PREAMBLE = 'v = 0\nw = []'
 
 
 def build_api(sp, order=None, name='gen'):
